@@ -87,6 +87,10 @@ type getSSEConnection struct {
 	// Prevent concurrent write conflicts
 	writeLock sync.Mutex
 
+	// closed is set, under writeLock, when the stream's handler is about to return: the
+	// ResponseWriter must not be used after that.
+	closed bool
+
 	// Event ID generator, reuses existing sseResponder
 	sseResponder *sseResponder
 }
@@ -657,20 +661,40 @@ func (h *httpServerHandler) handleGet(ctx context.Context, w http.ResponseWriter
 		delete(h.getSSEConnections, session.GetID())
 	}
 	h.getSSEConnectionsLock.Unlock()
+
+	// A sender may have looked this stream up before it was removed. Wait for a write in progress and
+	// keep later ones off the ResponseWriter, which must not be used once this handler has returned.
+	conn.writeLock.Lock()
+	conn.closed = true
+	conn.writeLock.Unlock()
 	h.logger.Infof("GET SSE connection closed, session ID: %s", session.GetID())
+}
+
+// lockGetSSEConnection returns the session's current GET SSE connection with its writeLock held.
+// A connection whose handler has finished in the meantime is skipped: such a connection is no longer
+// in the table, so the next lookup finds its successor or nothing.
+func (h *httpServerHandler) lockGetSSEConnection(sessionID string) (*getSSEConnection, bool) {
+	for {
+		h.getSSEConnectionsLock.RLock()
+		conn, ok := h.getSSEConnections[sessionID]
+		h.getSSEConnectionsLock.RUnlock()
+		if !ok {
+			return nil, false
+		}
+		conn.writeLock.Lock()
+		if !conn.closed {
+			return conn, true
+		}
+		conn.writeLock.Unlock()
+	}
 }
 
 // Send notification through GET SSE
 func (h *httpServerHandler) sendNotificationToGetSSE(sessionID string, notification *JSONRPCNotification) error {
-	h.getSSEConnectionsLock.RLock()
-	conn, ok := h.getSSEConnections[sessionID]
-	h.getSSEConnectionsLock.RUnlock()
-
+	conn, ok := h.lockGetSSEConnection(sessionID)
 	if !ok {
 		return fmt.Errorf("%w: %s", ErrSessionNotFound, sessionID)
 	}
-
-	conn.writeLock.Lock()
 	defer conn.writeLock.Unlock()
 
 	// Use SSE responder to send notification
@@ -761,7 +785,7 @@ func (h *httpServerHandler) sendNotification(sessionID string, notification *JSO
 func (h *httpServerHandler) SendRequest(ctx context.Context, sessionID string, request *JSONRPCRequest) (*json.RawMessage, error) {
 	// Check if there's a GET SSE connection for this session.
 	h.getSSEConnectionsLock.RLock()
-	conn, ok := h.getSSEConnections[sessionID]
+	_, ok := h.getSSEConnections[sessionID]
 	h.getSSEConnectionsLock.RUnlock()
 
 	if !ok {
@@ -779,7 +803,10 @@ func (h *httpServerHandler) SendRequest(ctx context.Context, sessionID string, r
 	defer h.responseManager.UnregisterRequest(requestIDStr)
 
 	// Send the request through GET SSE using the proper sendRequest method.
-	conn.writeLock.Lock()
+	conn, ok := h.lockGetSSEConnection(sessionID)
+	if !ok {
+		return nil, fmt.Errorf("no GET SSE connection found for session: %s", sessionID)
+	}
 	eventID, err := conn.sseResponder.sendRequest(conn.writer, request)
 	if err != nil {
 		conn.writeLock.Unlock()
